@@ -32,7 +32,7 @@ Returns:
   else:
     orig = seterr(over='raise', invalid='raise')
     try:
-      w = sum(abs(weights**p), axis=axis)**(1./p)
+      w = sum(abs(weights)**p, axis=axis)**(1./p)
     except FloatingPointError: # use the infinity norm
       w = max(abs(weights), axis=axis)
     seterr(**orig)
